@@ -28,7 +28,9 @@ def consistent_values(vals):
         if is_int(a) and is_int(b):
             return int(a) < int(b)
         return a < b
-    vs = list(set(vals))[:14]
+    vs = sorted(set(vals))  # all values, in a fixed order: the oracle must not depend on the interpreter's hash seed
+    if len(vs) > 40:
+        return False
     for a in vs:
         for b in vs:
             for c in vs:
